@@ -9,10 +9,10 @@ import (
 )
 
 type TOpts struct {
-	Code   *string
-	Path   *string
-	Msg    *string
-	Params [][2]string // nil = not given
+	Code      *string
+	Path      *string
+	Msg       *string
+	Params    [][2]string // nil = not given
 	HasParams bool
 }
 
@@ -138,7 +138,7 @@ type Node struct {
 	Fields []Field
 	// order in which fields are inserted into the z.Schema map (nil = declaration order)
 	BuildOrder []int
-	Extra  []string // extra Go fields (type int) the schema does not name
+	Extra      []string // extra Go fields (type int) the schema does not name
 
 	CK    string // custom: int | str
 	CTest TestSpec
